@@ -181,3 +181,14 @@ Example ex_stack :
   map snd (report [Node WStmt mt true [] [] [] [blk [Node WStmt m false [bs "r1"; bs "r2"; bs "r3"; bs "r4"] [] [] []; simple "r1"; simple "r2"]]])
   = map bs ["r4"; "r1"]%string.
 Proof. vm_compute. reflexivity. Qed.
+
+(* falco-ignore-start inside a subroutine body, never closed: the variable declared BEFORE it (unused/variable, reported when
+   the subroutine ends) and the subroutine's own unused/declaration stay; r1, the rest of the body and the next subroutine go *)
+Definition p_open_in_block : list decl :=
+  [DSub mt [bs "scope"] [bs "unused/declaration"]
+        (SBlock mt [SSimple mt [] [bs "unused/variable"]; st mt "r0"; st (lead "# falco-ignore-start") "r1"; st mt "r2"]);
+   vsub [st mt "r3"]].
+Example unrepaired_open_in_block :
+  map snd (report_vcl_unrepaired p_open_in_block) = map bs ["scope"; "r0"]%string /\
+  map snd (report_vcl p_open_in_block) = map bs ["scope"; "r0"; "unused/variable"; "unused/declaration"]%string.
+Proof. vm_compute. split; reflexivity. Qed.
